@@ -181,7 +181,7 @@ func (fr *Frame) checkPost(ret *ssa.Return, vals []Term) {
 		}
 	}
 	for _, cl := range ct.Clauses {
-		if cl.Kind != "ensures" && cl.Kind != "preserves" {
+		if cl.Kind != "ensures" && cl.Kind != "preserves" && cl.Kind != "exit" {
 			continue
 		}
 		for _, cj := range splitConj(cl.Expr) {
